@@ -108,6 +108,17 @@ example : decompressTxOutAmount (compressTxOutAmount (2 ^ 64 - 1)) = 20496382304
 `C.YRecovery` is the explicit group hypothesis (a valid uncompressed key 04‖X‖Y is recovered by parsing
 (02|parity Y)‖X); `s.length < 2^63` is the Go run-time invariant for slice lengths. -/
 
+/-- The recognisers of the Model (take/drop equalities) are the same predicates as Go's
+`len(script) == n && script[i] == OP_X && …` index comparisons (`isPubKey…`: the form part; the curve
+validity call is the `Curve` parameter). -/
+theorem recognisers_index_form (s : List UInt8) :
+    (isPubKeyHash s).isSome = isPubKeyHashIdx s ∧ (isScriptHash s).isSome = isScriptHashIdx s ∧
+    (decide (s.length = 35 ∧ s.take 1 = [OP_DATA_33] ∧ s.drop 34 = [OP_CHECKSIG] ∧
+      ((s.drop 1).take 1 = [2] ∨ (s.drop 1).take 1 = [3])) = isPubKeyCompIdx s) ∧
+    (decide (s.length = 67 ∧ s.take 1 = [OP_DATA_65] ∧ s.drop 66 = [OP_CHECKSIG] ∧
+      (s.drop 1).take 1 = [4]) = isPubKeyUncompIdx s) :=
+  ⟨Lemmas.isPubKeyHash_idx s, Lemmas.isScriptHash_idx s, (Lemmas.isPubKey_form_idx s).1, (Lemmas.isPubKey_form_idx s).2⟩
+
 /-- `putCompressedScript` writes exactly the documented format (special forms 0–5 / VLQ(len+6)‖script). -/
 theorem script_format (C : Curve) (s : List UInt8) (h : s.length + 6 < 2 ^ 64) :
     putCompressedScript C s = compressedScript C s := Lemmas.script_fmt C s h
